@@ -957,6 +957,15 @@ impl RootRef<'_> {
             })?
         }
 
+        // Like openat2(2) (and os.MkdirAll), the empty path does not name
+        // anything -- in particular it does not name the root.
+        if path.as_ref().as_os_str().is_empty() {
+            Err(ErrorImpl::OsError {
+                operation: "mkdir_all empty path".into(),
+                source: IOError::from_raw_os_error(libc::ENOENT),
+            })?
+        }
+
         let (handle, remaining) = self
             .resolver
             .resolve_partial(self, path.as_ref(), false)
